@@ -50,6 +50,7 @@ inductive Deg where
   | alt
   | top
   | holes
+  | zeroAt (k : Nat)
 
 def parseDeg (s : String) : Option Deg :=
   match s with
@@ -61,6 +62,7 @@ def parseDeg (s : String) : Option Deg :=
   | "i" => some .holes
   | _ =>
     if s.startsWith "m" then (s.drop 1).toString.toNat?.map .mono
+    else if s.startsWith "h" then (s.drop 1).toString.toNat?.map .zeroAt
     else if s.startsWith "s" then (s.drop 1).toString.toNat?.map .single
     else s.toNat?.map .exact
 
@@ -81,6 +83,7 @@ def genCoords (F : FieldImpl) (seed n d : Nat) (deg : Deg) : Array Nat :=
   | .alt => v.mapIdx (fun i _ => v.getD ((i / d % 2) * d + i % d) 0)
   | .top => v.map (fun _ => F.M - 1)
   | .holes => v.mapIdx (fun i x => if i / d % 3 = 1 then 0 else x)
+  | .zeroAt k => v.mapIdx (fun i x => if i / d = k then 0 else x)
 
 /-- shape of column `c` of a generated matrix -/
 def colShape (c n : Nat) : Deg :=
@@ -267,6 +270,52 @@ def handleF (F : FieldImpl) (d : Nat) : List String → String
         | some cells =>
           s!"{rows} {rm.elementsPerRow / d} {summary cells d} {summary (rm.data.map F.asInt) 1}"
     | _, _, _, _, _, _ => "bad-op"
+  | ["segbuf", n, cols, seed, blowup, off, w, fill, sh] =>
+    match n.toNat?, cols.toNat?, seed.toNat?, blowup.toNat?, parseOff F off, w.toNat?, fill.toNat?, parseDeg sh with
+    | some n, some cols, some seed, some blowup, some offv, some w, some fill, some sh =>
+      if tooBig n blowup (cols * d) then "-" else
+      if cols = 0 ∨ n ≤ 1 ∨ !isPow2 n ∨ fill > 2 ∨ w = 0 then "panic" else
+      let B := baseOps F
+      let baseColsOf (sd : Nat) (shape : Nat → Deg) : Array (Array Nat) := (List.range (cols * d)).toArray.map fun bc =>
+        let coords := genCoords F ((sd + bc / d) % 18446744073709551616) n d (shape (bc / d))
+        (List.range n).toArray.map fun r => F.new (coords.getD (r * d + bc % d) 0)
+      let polys := baseColsOf seed (fun _ => sh)
+      let other := baseColsOf ((seed + 7777) % 18446744073709551616) (fun _ => .rand)
+      match evaluationOffsets B n blowup (F.new offv), getTwiddles B n with
+      | some offsets, some tw =>
+        let nseg := (cols * d + w - 1) / w
+        -- the storage left over from a previous call: a segment of another matrix (Segment::new)
+        match segmentNew (elemOps F) F.mul (F.new 0) maxLoop w other n 0 offsets tw with
+        | none => "panic"
+        | some prev0 =>
+          let step (st : Option (Array (Array Nat) × Array (Array (Array Nat)))) (i : Nat) :=
+            match st with
+            | none => none
+            | some (prev, segs) =>
+              let buffer : Array (Array Nat) :=
+                if fill = 0 then Array.replicate (n * blowup) (Array.replicate w (F.new 0))
+                else if fill = 1 then (List.range (n * blowup)).toArray.map fun r =>
+                  (List.range w).toArray.map fun s => F.new (((r * w + s + 1) * 2654435761) % 18446744073709551616)
+                else prev
+              match segmentNewWithBuffer (elemOps F) F.mul maxLoop w buffer polys n (i * w) offsets tw with
+              | none => none
+              | some seg => some (seg, segs.push seg)
+          match (List.range nseg).foldl step (some (prev0, #[])) with
+          | none => "panic"
+          | some (_, segs) =>
+            match rowMatrixFromSegments w segs (cols * d) with
+            | none => "panic"
+            | some rm =>
+              let rows := rm.data.size / rm.rowWidth
+              let cells : Option (Array Nat) := (List.range rows).foldl (fun acc r =>
+                match acc, rm.row r with
+                | some acc, some row => some (acc ++ row.map F.asInt)
+                | _, _ => none) (some (Array.mkEmpty (rows * cols * d)))
+              match cells with
+              | none => "panic"
+              | some cells => s!"{rows} {rm.elementsPerRow / d} {summary cells d} {summary (rm.data.map F.asInt) 1}"
+      | _, _ => "panic"
+    | _, _, _, _, _, _, _, _ => "bad-op"
   | ["airdom", n, cols, seed, lde, deg, w] =>
     match n.toNat?, cols.toNat?, seed.toNat?, lde.toNat?, deg.toNat?, w.toNat? with
     | some n, some cols, some seed, some lde, some deg, some w =>
